@@ -395,13 +395,13 @@ package types
 //@    (forall y5 *SelectLabelType :: out(SessionType(y5), t) ==> y5.Mode == old(y5.Mode)) && (forall y6 *BranchCaseType :: out(SessionType(y6), t) ==> y6.Mode == old(y6.Mode))
 
 //@ contract interface SessionType.assignUnsetModalities(self, env, cur)
-//@   requires !unsetM(cur)
-//@   requires shiftSourcesSet(self) && treeOK(self)
+//@   requires[C16] !unsetM(cur)
+//@   requires[C16] shiftSourcesSet(self) && treeOK(self)
 //@   requires[C09] shapeOK(self)
-//@   ensures C16.assignOwn: topAssigned(self, cur, dom(env), vals(env))
-//@   ensures C16.assignKids: kidsAssigned(self, cur, dom(env), vals(env))
-//@   ensures C16.assignKept: modesKept()
-//@   ensures C16.assignFrame: modesOutsideKept(self)
+//@   ensures[C16] C16.assignOwn: topAssigned(self, cur, dom(env), vals(env))
+//@   ensures[C16] C16.assignKids: kidsAssigned(self, cur, dom(env), vals(env))
+//@   ensures[C16] C16.assignKept: modesKept()
+//@   ensures[C16] C16.assignFrame: modesOutsideKept(self)
 //@   decreases[C09] size(self)
 //@   safety C09
 
@@ -423,28 +423,28 @@ package types
 //@    (forall z5 *SelectLabelType :: lo(SessionType(z5)) > b ==> z5.Mode == old(z5.Mode)) && (forall z6 *BranchCaseType :: lo(SessionType(z6)) > b ==> z6.Mode == old(z6.Mode))
 
 //@ contract (*SelectLabelType).assignUnsetModalities
-//@   loop 1 invariant modesKept() && modesOutsideKept(SessionType(q))
-//@   loop 1 invariant modesBeyondKept(visitedUpTo(q.Branches, idx, SessionType(q)))
-//@   loop 1 invariant (forall k int :: 0 <= k && k <= idx ==> hi(q.Branches[k].SessionType) <= visitedUpTo(q.Branches, idx, SessionType(q)))
-//@   loop 1 invariant q.Mode == inForce(old(q.Mode), currentMode)
-//@   loop 1 invariant (forall k int :: 0 <= k && k <= idx ==> topAssigned(q.Branches[k].SessionType, inForce(old(q.Mode), currentMode), dom(labelledTypesEnv), vals(labelledTypesEnv)))
+//@   loop[C16] 1 invariant modesKept() && modesOutsideKept(SessionType(q))
+//@   loop[C16] 1 invariant modesBeyondKept(visitedUpTo(q.Branches, idx, SessionType(q)))
+//@   loop[C16] 1 invariant (forall k int :: 0 <= k && k <= idx ==> hi(q.Branches[k].SessionType) <= visitedUpTo(q.Branches, idx, SessionType(q)))
+//@   loop[C16] 1 invariant q.Mode == inForce(old(q.Mode), currentMode)
+//@   loop[C16] 1 invariant (forall k int :: 0 <= k && k <= idx ==> topAssigned(q.Branches[k].SessionType, inForce(old(q.Mode), currentMode), dom(labelledTypesEnv), vals(labelledTypesEnv)))
 //@ contract (*BranchCaseType).assignUnsetModalities
-//@   loop 1 invariant modesKept() && modesOutsideKept(SessionType(q))
-//@   loop 1 invariant modesBeyondKept(visitedUpTo(q.Branches, idx, SessionType(q)))
-//@   loop 1 invariant (forall k int :: 0 <= k && k <= idx ==> hi(q.Branches[k].SessionType) <= visitedUpTo(q.Branches, idx, SessionType(q)))
-//@   loop 1 invariant q.Mode == inForce(old(q.Mode), currentMode)
-//@   loop 1 invariant (forall k int :: 0 <= k && k <= idx ==> topAssigned(q.Branches[k].SessionType, inForce(old(q.Mode), currentMode), dom(labelledTypesEnv), vals(labelledTypesEnv)))
+//@   loop[C16] 1 invariant modesKept() && modesOutsideKept(SessionType(q))
+//@   loop[C16] 1 invariant modesBeyondKept(visitedUpTo(q.Branches, idx, SessionType(q)))
+//@   loop[C16] 1 invariant (forall k int :: 0 <= k && k <= idx ==> hi(q.Branches[k].SessionType) <= visitedUpTo(q.Branches, idx, SessionType(q)))
+//@   loop[C16] 1 invariant q.Mode == inForce(old(q.Mode), currentMode)
+//@   loop[C16] 1 invariant (forall k int :: 0 <= k && k <= idx ==> topAssigned(q.Branches[k].SessionType, inForce(old(q.Mode), currentMode), dom(labelledTypesEnv), vals(labelledTypesEnv)))
 
 // (d) the two entry points
 
 //@ contract AddMissingModalities
-//@   requires t != nil ==> shiftSourcesSet(deref(t)) && treeOK(deref(t))
+//@   requires[C16] t != nil ==> shiftSourcesSet(deref(t)) && treeOK(deref(t))
 //@   requires[C09] t != nil ==> deref(t) != nil && shapeOK(deref(t))
-//@   ensures C16.addInferred: t != nil && !unsetM(old(infer(deref(t), dom(labelledTypesEnv), vals(labelledTypesEnv), emptyStrSet))) ==>
+//@   ensures[C16] C16.addInferred: t != nil && !unsetM(old(infer(deref(t), dom(labelledTypesEnv), vals(labelledTypesEnv), emptyStrSet))) ==>
 //@        topAssigned(deref(t), old(infer(deref(t), dom(labelledTypesEnv), vals(labelledTypesEnv), emptyStrSet)), dom(labelledTypesEnv), vals(labelledTypesEnv))
-//@   ensures C16.addDefault: t != nil && unsetM(old(infer(deref(t), dom(labelledTypesEnv), vals(labelledTypesEnv), emptyStrSet))) ==>
+//@   ensures[C16] C16.addDefault: t != nil && unsetM(old(infer(deref(t), dom(labelledTypesEnv), vals(labelledTypesEnv), emptyStrSet))) ==>
 //@        (exists m Modality :: is(m, ReplicableMode) && topAssigned(deref(t), m, dom(labelledTypesEnv), vals(labelledTypesEnv)))
-//@   ensures C16.addKept: modesKept()
+//@   ensures[C16] C16.addKept: modesKept()
 //@   safety C09
 
 // the definitions form a forest, numbered left to right above some lower bound
@@ -455,17 +455,17 @@ package types
 //@ macro defInfer(defs []SessionTypeDefinition, k int) Modality = infer(defs[k].SessionType, defNames(defs, len(defs)), defVals(defs, len(defs)), emptyStrSet)
 
 //@ contract SetModalityTypeDef
-//@   requires defsTree(typesDef)
+//@   requires[C16] defsTree(typesDef)
 //@   requires[C09] defsShape(typesDef)
-//@   ensures C16.defInferred: forall k int :: 0 <= k && k < len(typesDef) && !unsetM(old(defInfer(typesDef, k))) ==> typesDef[k].Modality == old(defInfer(typesDef, k))
-//@   ensures C16.defDefault: forall k int :: 0 <= k && k < len(typesDef) && unsetM(old(defInfer(typesDef, k))) ==> is(typesDef[k].Modality, ReplicableMode)
-//@   ensures C16.defAssigned: forall k int :: 0 <= k && k < len(typesDef) ==> topAssigned(typesDef[k].SessionType, typesDef[k].Modality, defNames(typesDef, len(typesDef)), defVals(typesDef, len(typesDef)))
-//@   ensures C16.defKept: modesKept()
-//@   loop 1 invariant labelledTypesEnv != nil && dom(labelledTypesEnv) == old(defNames(typesDef, len(typesDef)))
-//@   loop 1 invariant (forall n string :: has(labelledTypesEnv, n) ==> labelledTypesEnv[n].Type == old(defVals(typesDef, len(typesDef)))[n].Type)
-//@   loop 1 invariant (forall k int :: 0 <= k && k <= idx && !unsetM(old(defInfer(typesDef, k))) ==> typesDef[k].Modality == old(defInfer(typesDef, k)))
-//@   loop 1 invariant (forall k int :: 0 <= k && k <= idx && unsetM(old(defInfer(typesDef, k))) ==> is(typesDef[k].Modality, ReplicableMode))
-//@   loop 2 invariant modesKept() && modesBeyondKept(visitedDefs(typesDef, idx))
-//@   loop 2 invariant (forall k int :: 0 <= k && k <= idx ==> hi(typesDef[k].SessionType) <= visitedDefs(typesDef, idx))
-//@   loop 2 invariant (forall k int :: 0 <= k && k <= idx ==> topAssigned(typesDef[k].SessionType, typesDef[k].Modality, dom(labelledTypesEnv), vals(labelledTypesEnv)))
+//@   ensures[C16] C16.defInferred: forall k int :: 0 <= k && k < len(typesDef) && !unsetM(old(defInfer(typesDef, k))) ==> typesDef[k].Modality == old(defInfer(typesDef, k))
+//@   ensures[C16] C16.defDefault: forall k int :: 0 <= k && k < len(typesDef) && unsetM(old(defInfer(typesDef, k))) ==> is(typesDef[k].Modality, ReplicableMode)
+//@   ensures[C16] C16.defAssigned: forall k int :: 0 <= k && k < len(typesDef) ==> topAssigned(typesDef[k].SessionType, typesDef[k].Modality, defNames(typesDef, len(typesDef)), defVals(typesDef, len(typesDef)))
+//@   ensures[C16] C16.defKept: modesKept()
+//@   loop[C16] 1 invariant labelledTypesEnv != nil && dom(labelledTypesEnv) == old(defNames(typesDef, len(typesDef)))
+//@   loop[C16] 1 invariant (forall n string :: has(labelledTypesEnv, n) ==> labelledTypesEnv[n].Type == old(defVals(typesDef, len(typesDef)))[n].Type)
+//@   loop[C16] 1 invariant (forall k int :: 0 <= k && k <= idx && !unsetM(old(defInfer(typesDef, k))) ==> typesDef[k].Modality == old(defInfer(typesDef, k)))
+//@   loop[C16] 1 invariant (forall k int :: 0 <= k && k <= idx && unsetM(old(defInfer(typesDef, k))) ==> is(typesDef[k].Modality, ReplicableMode))
+//@   loop[C16] 2 invariant modesKept() && modesBeyondKept(visitedDefs(typesDef, idx))
+//@   loop[C16] 2 invariant (forall k int :: 0 <= k && k <= idx ==> hi(typesDef[k].SessionType) <= visitedDefs(typesDef, idx))
+//@   loop[C16] 2 invariant (forall k int :: 0 <= k && k <= idx ==> topAssigned(typesDef[k].SessionType, typesDef[k].Modality, dom(labelledTypesEnv), vals(labelledTypesEnv)))
 //@   safety C09
